@@ -20,6 +20,7 @@ type Oblig struct {
 	Cover  bool // must NOT be discharged (vacuity probe)
 	N      int  // number of program points aggregated
 	Tags   []string
+	Peer   bool // a safety obligation whose operand derives from peer-supplied data (taint.go)
 }
 
 type Item struct {
@@ -57,6 +58,7 @@ type State struct {
 type privObj struct {
 	ref Term
 	T   types.Type
+	blk *ssa.BasicBlock // where ref is defined: the fact is used only in blocks this one dominates
 }
 
 type Loc struct {
@@ -136,6 +138,7 @@ type FnCtx struct {
 	curDefs      *[]string
 	storeDefs    map[Term]storeDef
 	private      []privObj
+	constComps   map[string]bool // components of package variables that never change after initialisation
 	frozenFV     map[*ssa.FreeVar]Term
 	pointSites   map[string]int
 	emitErr      func(map[*Oblig]bool) (string, error)
@@ -229,6 +232,7 @@ func (c *FnCtx) sortOf(t types.Type) string { return c.tt.sortOf(t) }
 // ---------- obligations / items
 
 func (c *FnCtx) oblig(id, kind, src string, safety bool) *Oblig {
+	id = strings.TrimSpace(id) // (names are cut from source text; the baseline file trims its lines)
 	if o, ok := c.oblByID[id]; ok {
 		o.N++
 		if src != "" {
@@ -310,7 +314,7 @@ func (c *FnCtx) get(st *State, comp string) Term {
 			}
 			return t
 		}
-		if s.havoc && (s.keep == nil || !s.keep(comp)) && !strings.HasPrefix(comp, "lghost$") {
+		if s.havoc && (s.keep == nil || !s.keep(comp)) && !strings.HasPrefix(comp, "lghost$") && !c.constComps[comp] {
 			// (ghost variables of the function under verification are not memory: no call changes them)
 			t := c.freshComp(comp)
 			s.m[comp] = t
@@ -320,8 +324,19 @@ func (c *FnCtx) get(st *State, comp string) Term {
 				c.axioms = append(c.axioms, app("<=", old, t))
 			}
 			for _, p := range s.priv {
-				st := p.T.Underlying().(*types.Struct)
+				st, isSt := p.T.Underlying().(*types.Struct)
+				if !isSt {
+					// a non-escaping scalar local (e.g. the result cell of a function with defers)
+					if c.cellComp(p.T) == comp && s.parent != nil {
+						old := c.get(s.parent, comp)
+						c.axioms = append(c.axioms, eq(app("select", t, p.ref), app("select", old, p.ref)))
+					}
+					continue
+				}
 				for k := 0; k < st.NumFields(); k++ {
+					if isStruct(st.Field(k).Type()) {
+						continue
+					}
 					if c.fieldComp(p.T, k) == comp && s.parent != nil {
 						old := c.get(s.parent, comp)
 						c.axioms = append(c.axioms, eq(app("select", t, p.ref), app("select", old, p.ref)))
@@ -353,7 +368,16 @@ func (c *FnCtx) snapshot() *State {
 
 func (c *FnCtx) havocState(keep func(string) bool) {
 	old := c.st
-	c.st = &State{m: map[string]Term{}, parent: old, blk: old.blk, havoc: true, keep: keep, priv: append([]privObj{}, c.private...)}
+	var priv []privObj
+	for _, p := range c.private {
+		// (in a block the defining block does not dominate, ref is an unconstrained constant)
+		if c.cur != nil && c.cur.b != nil && p.blk != nil && p.blk.Dominates(c.cur.b) {
+			priv = append(priv, p)
+		} else if (c.cur == nil || c.cur.b == nil) && p.blk != nil && p.blk.Index == 0 {
+			priv = append(priv, p)
+		}
+	}
+	c.st = &State{m: map[string]Term{}, parent: old, blk: old.blk, havoc: true, keep: keep, priv: priv}
 }
 
 func (c *FnCtx) forwardPreds(b *BlockVC) []*EdgeVC {
@@ -464,7 +488,14 @@ func (c *FnCtx) globalComp(g *ssa.Global) string {
 	if g.Pkg != c.g.pkg && g.Pkg != nil {
 		name = g.Pkg.Pkg.Name() + "." + name
 	}
-	return c.comp("G$"+sanitize(name), c.sortOf(el))
+	comp := c.comp("G$"+sanitize(name), c.sortOf(el))
+	if c.g.constGlobals[g] {
+		if c.constComps == nil {
+			c.constComps = map[string]bool{}
+		}
+		c.constComps[comp] = true
+	}
+	return comp
 }
 
 // ---------- zero values and type invariants
